@@ -260,7 +260,7 @@ pub fn c17(case_seed: u64, acc: &mut Acc) {
     }
     // (d) determinism for a pinned seed
     if f.is_none() {
-        let real2 = run_text(&ran.pr.text, &case.signals, &case.script, &RunOpts { max_steps: REAL_STEP_CAP, probe_after_end: 2, stop_at_error: true, seed: Some(case.rng_seed) });
+        let real2 = run_text(&ran.pr.text, &case.signals, &case.script, &RunOpts { max_steps: REAL_STEP_CAP, probe_after_end: 2, stop_at_error: true, seed: Some(case.rng_seed), continue_on: None });
         acc.evaluations += 1;
         let log2: Vec<DrawRec> = real2.steps.iter().flat_map(|s| s.draws.iter().copied()).collect();
         if log2 != log {
